@@ -1,2 +1,63 @@
-(** Property C15 — placeholder while the proofs are being written. *)
-From JR Require Import JsonClass.
+(** Property C15 — jsonclass round-trips plain data and is side-effect free.
+    Statements only; each is closed by [exact] and followed by [Print Assumptions].
+
+    [fixed] is the repaired code (finding F9: the restore of "__jsonclass__" happens in a finally
+    clause); the pinned variant is refuted in Examples/C15_examples.v.
+    dump's purity needs no theorem: the model's dump has no argument state because the code contains
+    no write to the argument; on the implementation it is decided by deep snapshot comparison. *)
+From JR Require Import JsonClass JsonClassProofs.
+
+(** dump of any nesting of lists, tuples, sets, frozensets, dicts and primitives succeeds and is made
+    of dicts, lists and primitives only — for every config without serialize handlers, every spelling
+    of the configured names and every ignore list *)
+Theorem C15_dump_plain : forall hfun E cfg sm ia ign v,
+  no_handlers cfg = true -> plain v = true ->
+  exists d, jc_dump hfun fixed E cfg sm ia ign v = Ok d /\ json_shape d = true.
+Proof. exact dump_plain. Qed.
+Print Assumptions C15_dump_plain.
+
+(** with string keys the result is JSON ... *)
+Theorem C15_dump_serialisable : forall hfun E cfg sm ia ign v,
+  no_handlers cfg = true -> plain v = true -> str_keys v = true ->
+  exists d, jc_dump hfun fixed E cfg sm ia ign v = Ok d /\ is_json d = true.
+Proof. exact dump_serialisable. Qed.
+Print Assumptions C15_dump_serialisable.
+
+(** ... hence accepted by every backend that serialises JSON values *)
+Theorem C15_backend_accepts : forall (enc : val -> res str) hfun E cfg sm ia ign v,
+  (forall w, is_json w = true -> exists t, enc w = Ok t) ->
+  no_handlers cfg = true -> plain v = true -> str_keys v = true ->
+  exists d t, jc_dump hfun fixed E cfg sm ia ign v = Ok d /\ enc d = Ok t.
+Proof. exact backend_accepts. Qed.
+Print Assumptions C15_backend_accepts.
+
+(** load (dump v) is v up to container normalisation — whatever class table or local classes are
+    around; load also leaves the dumped structure exactly as it was and imports / constructs nothing *)
+Theorem C15_roundtrip : forall hfun E cfg sm ia ign v d cl,
+  no_handlers cfg = true -> plain v = true -> no_descriptor v = true ->
+  jc_dump hfun fixed E cfg sm ia ign v = Ok d ->
+  jc_load_m fixed E cl d = (Ok (norm v), d, []).
+Proof. exact roundtrip. Qed.
+Print Assumptions C15_roundtrip.
+
+(** every primitive comes back with its constructor and value (bool stays bool, int stays int,
+    -0.0 stays -0.0 ...): the leaves of the reloaded value are literally the leaves of the original *)
+Theorem C15_primitive_exact : forall hfun E cfg sm ia ign v cl,
+  no_handlers cfg = true -> plain v = true -> no_descriptor v = true ->
+  exists d l, jc_dump hfun fixed E cfg sm ia ign v = Ok d /\ lres_val (jc_load_m fixed E cl d) = Ok l /\
+              leaves l = leaves v /\ forallb is_prim (leaves v) = true.
+Proof. exact primitive_exact. Qed.
+Print Assumptions C15_primitive_exact.
+
+Theorem C15_norm_keeps_leaves : forall v, leaves (norm v) = leaves v.
+Proof. exact norm_leaves. Qed.
+Print Assumptions C15_norm_keeps_leaves.
+
+(** load never modifies the object it is given — for EVERY value (descriptors well-formed or not),
+    every class table and local table, whether load succeeds or fails: the argument as the caller
+    finds it afterwards equals the original up to the position of the "__jsonclass__" entry inside
+    its dicts, i.e. it is == to the original *)
+Theorem C15_load_pure : forall E v cl,
+  canon (lres_arg (jc_load_m fixed E cl v)) = canon v.
+Proof. exact load_pure. Qed.
+Print Assumptions C15_load_pure.
